@@ -2,6 +2,7 @@ package rules
 
 import (
 	"fmt"
+	"go/token"
 	"go/types"
 	"strings"
 
@@ -25,6 +26,10 @@ func completePeerKey(k ssa.Value, conn *ssa.Parameter, depth int) (bool, bool) {
 		}
 		if cc.IsInvoke() && cc.Method.Name() == "RemoteAddr" {
 			return true, c15Root(cc.Value) == ssa.Value(conn)
+		}
+		// the local address is the same for every client of the port: a table keyed by it has one slot for all of them
+		if cc.IsInvoke() && cc.Method.Name() == "LocalAddr" && c15Root(cc.Value) == ssa.Value(conn) {
+			return true, false
 		}
 		// anything computed from the remote address by a helper: derived, completeness unknown
 		for _, a := range cc.Args {
@@ -119,7 +124,7 @@ func c03PeerKeys(c *Ctx) {
 				}
 				n++
 				key := fmt.Sprintf("%s: key of %s.%s #%d", name, TypeKey(sv.Type), fname, n)
-				c.Check(complete, "per-peer-key-complete", key, p.InstrPos(in), "conn.RemoteAddr() or its String()", "per-peer state in the shared service object is keyed by a value computed from the remote address ("+RenderN(k, 4)+") that is not the address itself or its String(): two peers whose addresses differ only in the part the key drops (e.g. bytes of a 16-byte IP) share one entry, so one client's transfer is completed, answered and reported under the other's")
+				c.Check(complete, "per-peer-key-complete", key, p.InstrPos(in), "conn.RemoteAddr() or its String()", "per-peer state in the shared service object is keyed by a value computed from the connection's addresses ("+RenderN(k, 4)+") that is not the remote address itself or its String(): peers whose addresses differ only in the part the key drops (bytes of a 16-byte IP) – or, for a key made from the LOCAL address, all peers of the port – share one entry, so one client's transfer is completed, answered and reported under the other's")
 			}
 		}
 	}
@@ -169,4 +174,104 @@ func c03LimiterState(c *Ctx) {
 		c.Check(bad == "", rule, shortFn(fn), p.Pos(fn.Pos()), "writes no unsynchronised field of the shared limiter", bad+": every handler goroutine of the service runs this method at once, so two peers whose first datagrams arrive together can be given the same bucket object and share one allowance from then on")
 	}
 	c.Floor(rule, 1, "(*Limiter).Allow")
+}
+
+// c03SharedLockNotHeldAcrossClientIO: a mutex that several sessions share by design (a *sync.Mutex handed from one
+// object to its clones, or a mutex of the shared service object) may be held for the service's own bookkeeping, not while
+// data is pulled from a client: `io.Copy(file, dataConn)` under such a lock runs at the pace of that client, without a
+// deadline, and every other session that needs the lock gets no reply until the upload ends. Flagged: a function of the
+// service packages that takes a lock through a pointer-typed mutex field (directly or through a Lock helper of the
+// object) with the release deferred, and then reads to the end from a reader it was handed as a parameter.
+func c03SharedLockNotHeldAcrossClientIO(c *Ctx) {
+	p := c.P
+	const rule = "shared-lock-not-across-client-io"
+	// lock helpers: in-repo methods whose body locks a pointer-typed mutex field of the receiver
+	ptrMutexLock := func(call ssa.CallInstruction) bool {
+		f := call.Common().StaticCallee()
+		if f == nil || PkgOf(f) != "sync" || (f.Name() != "Lock" && f.Name() != "RLock") || len(call.Common().Args) == 0 {
+			return false
+		}
+		// receiver is a loaded pointer field (x.mu where mu is *sync.Mutex), not the address of an embedded value
+		ld, ok := call.Common().Args[0].(*ssa.UnOp)
+		if !ok || ld.Op != token.MUL {
+			return false
+		}
+		_, isFA := ld.X.(*ssa.FieldAddr)
+		return isFA
+	}
+	helpers := map[*ssa.Function]bool{}
+	for _, fn := range p.FuncsIn("services") {
+		if fn.Blocks == nil || fn.Signature.Recv() == nil {
+			continue
+		}
+		for _, call := range Calls(fn) {
+			if _, isDefer := call.(*ssa.Defer); !isDefer && ptrMutexLock(call) {
+				hasUnlock := false
+				for _, c2 := range Calls(fn) {
+					if f2 := c2.Common().StaticCallee(); f2 != nil && PkgOf(f2) == "sync" && (f2.Name() == "Unlock" || f2.Name() == "RUnlock") {
+						hasUnlock = true
+					}
+				}
+				if !hasUnlock {
+					helpers[fn] = true // returns with the lock held
+				}
+			}
+		}
+	}
+	n := 0
+	for _, fn := range p.FuncsIn("services") {
+		if fn.Blocks == nil || strings.HasPrefix(RelPkg(PkgOf(fn)), "services/ja3") || strings.HasSuffix(p.Fset.Position(fn.Pos()).Filename, "_test.go") {
+			continue
+		}
+		var acq ssa.Instruction
+		for _, call := range Calls(fn) {
+			if _, isDefer := call.(*ssa.Defer); isDefer {
+				continue
+			}
+			if ptrMutexLock(call) || helpers[call.Common().StaticCallee()] {
+				acq = call
+			}
+		}
+		if acq == nil || helpers[fn] {
+			continue
+		}
+		// the release is deferred (held to the end of the function)
+		deferred := false
+		for _, call := range Calls(fn) {
+			if _, isDefer := call.(*ssa.Defer); isDefer {
+				f := call.Common().StaticCallee()
+				if f != nil && (f.Name() == "Unlock" || f.Name() == "RUnlock") {
+					deferred = true
+				}
+			}
+		}
+		if !deferred {
+			continue
+		}
+		n++
+		bad := ""
+		for _, call := range Calls(fn) {
+			f := call.Common().StaticCallee()
+			if f == nil || !before(acq, call) {
+				continue
+			}
+			srcIdx := -1
+			switch {
+			case FuncIs(f, "io", "Copy"), FuncIs(f, "io", "CopyN"), FuncIs(f, "io", "CopyBuffer"):
+				srcIdx = 1
+			case FuncIs(f, "io/ioutil", "ReadAll"), FuncIs(f, "io", "ReadAll"), FuncIs(f, "io", "ReadFull"):
+				srcIdx = 0
+			}
+			if srcIdx < 0 || srcIdx >= len(call.Common().Args) {
+				continue
+			}
+			if pr, isP := c15Root(call.Common().Args[srcIdx]).(*ssa.Parameter); isP && pr.Parent() == fn {
+				bad = FuncShort(f) + " from the parameter " + pr.Name() + " at " + p.InstrPos(call)
+			}
+		}
+		c.Check(bad == "", rule, shortFn(fn), p.InstrPos(acq), "no read-to-the-end from a handed-in reader while the shared lock is held", "this function takes a lock that sessions share (a mutex reached through a pointer field) and, still holding it, runs "+bad+": the transfer is paced by that client, has no deadline, and every other session that needs the lock is answered only when it ends")
+	}
+	if n == 0 {
+		c.Ok(rule, "services", "-", "no function of the service packages holds a pointer-shared mutex to its end today; the rule arms itself on the first one")
+	}
 }
